@@ -73,6 +73,11 @@ def build_defect(text, defect, family):
     pre, post = text[:at], text[at:]
     if defect['kind'] == 'nonprintable':
         ch = defect['char']
+        if defect.get('second'):
+            # a second unprintable character (usually of another class) further on: the FIRST one in the text is
+            # what every delivery must report
+            gap = min(defect['second']['gap'], len(post))
+            post = post[:gap] + defect['second']['char'] + post[gap:]
         if family == 'text':
             data = pre + ch + post
             lo = len(pre.encode('utf-8'))
@@ -238,6 +243,8 @@ def generate(seed, tier):
         at = r.randint(0, len(text))
         if r.random() < 0.5:
             defect = {'kind': 'nonprintable', 'char': r.choice(NONPRINT), 'at': at}
+            if r.random() < 0.35:
+                defect['second'] = {'char': r.choice([c for c in NONPRINT if c != defect['char']]), 'gap': r.choice([0, 1, 2, 5, 20, 100, 1000])}
             fams = FAMILIES
         else:
             fam = r.choice(['utf8', 'utf8bom', 'utf16le', 'utf16be'])
